@@ -20,7 +20,7 @@ RULE = ('case = seeded interleaving of client programs (build, write, mutate or 
         'write was preceded by at least one op of another file or an earlier write of its own file; distinct = case digest')
 
 
-def client_program(rng, c, avoid, hc_names, shared_pool=None):
+def client_program(rng, c, avoid, hc_names, shared_pool=None, collider=None):
     spec = gen.Spec(rng, fid='f%d' % c, px='c%d_' % c, client=c)
     gen.simple_file(rng, spec=spec, mrl=gen.record_length(rng, small=0.3), n_lf=1, max_width=4, hc=hc_names,
                     dtypes=['u1', 'u2', 'u4', 'f4', 'f8'] if hc_names else None,
@@ -38,6 +38,9 @@ def client_program(rng, c, avoid, hc_names, shared_pool=None):
     m = genmeta.populate(spec, lfi, rng, n=rng.choice([1, 3, 5, 8]), hc=hc_names, p_attr=0.4, shared_pool=shared_pool,
                          kinds=['zone', 'axis', 'parameter', 'computation', 'equipment', 'tool', 'calibration_coefficient',
                                 'well_reference_point', 'message', 'comment', 'long_name', 'path', 'splice'])
+    if collider is not None:
+        # equal-but-distinct values across clients (they compare and hash equal, their encodings differ): each client gets its member
+        spec.add(lfi, 'axis', 'COLL%d' % c, coordinates=[collider[c % len(collider)], 2.5])
     prog = list(spec.ops)
     if rng.random() < 0.35:
         prog = prog[:2] + gen.toposhuffle(rng, prog[2:])      # e.g. metadata objects before channels, origin last
@@ -139,7 +142,12 @@ def gen_case(rng, tier, avoid):
     nc = rng.choice([1, 2, 2, 3])
     use_hc = rng.random() < 0.25
     pool = {} if rng.random() < 0.3 else None      # the clients pass the same dict / AttrSetup objects to their files
-    progs = [client_program(rng, c, avoid, use_hc, shared_pool=pool) for c in range(nc)]
+    collider = None
+    if rng.random() < 0.2 and 'neg_zero' not in avoid:
+        np64 = lambda x: {'$npscalar': ['float64', x]}       # noqa: E731
+        collider = gen.pick(rng, [[0.0, -0.0], [-0.0, 0.0], [np64(0.0), np64(-0.0)], [np64(-0.0), np64(0.0)], [np64(0.0), -0.0],
+                                  [0.0, np64(-0.0)], [0, -0.0], [1, 1.0], [1.0, np64(1.0)], [0, 0.0]])
+    progs = [client_program(rng, c, avoid, use_hc, shared_pool=pool, collider=collider) for c in range(nc)]
     # seeded scheduler: interleave the programs
     hist, sched = [], []
     idx = [0] * nc
